@@ -24,7 +24,7 @@ def edge_val(rng, w):
     full = (1 << (8 * w)) - 1
     c = rng.randrange(12)
     v = [0, 1, full, 1 << (8 * w - 1), (1 << (8 * w - 1)) - 1, 1 << 31, (1 << 32) - 1 & full, 0x5555555555555555 & full,
-         0xAAAAAAAAAAAAAAAA & full, 2, full - 1, 7][c] if c < 12 and rng.random() < 0.6 else rng.getrandbits(8 * w)
+         0xAAAAAAAAAAAAAAAA & full, 2, full - 1, 7][c] if c < 12 and rng.random() < 0.75 else rng.getrandbits(8 * w)
     if rng.random() < 0.15:
         v = rng.randrange(0, 64)
     return [(v >> (8 * i)) & 255 for i in range(w)]
@@ -76,8 +76,16 @@ class RVCheck(Check):
 
     def record(self, groups):
         evg = Check.record(self, groups)
-        rng = random.Random(4242)
-        return [[self.decorate(rng, e) for e in evs] for evs in evg]
+        # machine states are a function of the case alone, so that a failing case replays identically on its own
+        import zlib
+        out = []
+        for evs in evg:
+            row = []
+            for e in evs:
+                key = json.dumps([e.get("case"), e.get("variant"), e.get("exts"), e.get("addr"), e.get("bytes"), e.get("image")])
+                row.append(self.decorate(random.Random(zlib.crc32(key.encode())), e))
+            out.append(row)
+        return out
 
     def case(self, cid, xlen, exts, addr, word, extra=None, mode=None):
         bs = word_bytes(word) + (extra or [])
@@ -87,13 +95,14 @@ class RVCheck(Check):
 
 class C01(RVCheck):
     pid = "C01"
+    nstates = 6
     rule = ("cases: every mnemonic of every configuration (RV32/RV64 x {I, IM, IA, IMA}) x seeded draws from field "
             "grids (rd/rs1/rs2 in {0,1,2,5,10,31} incl. equal registers; immediates 0, +-1, min, max, bit patterns; all "
             "shift-amount classes; CSR numbers 0,1,0x300,0x7FF,0x800,0xC00,0xFFF; aq/rl bits) x instruction addresses "
-            "(0, 0x1000, 2^31-4, 2^31, 2^32-4096, 2^63-4, 2^63, 2^64-4096) x 3 machine states (edge/random register "
+            "(0, 0x1000, 2^31-4, 2^31, 2^32-4096, 2^63-4, 2^63, 2^64-4096) x 6 machine states (edge/random register "
             "values, total pseudo-random memory); judged: final rd, CSR, touched memory bytes and ip of the lifted "
             "effects = RV!Exec; no effect names x0; non-trivial = accepted word; distinct by (config, address, word)")
-    assumptions = ["3 machine states per instruction word (registers from an edge grid + random; memory a total function)",
+    assumptions = ["6 machine states per instruction word (registers from an edge grid + random; memory a total function)",
                    "memory accesses do not wrap around the address space",
                    "addresses leave room for the immediates used (pc-relative targets stay inside the address space)"]
 
@@ -105,11 +114,11 @@ class C01(RVCheck):
 
     def groups(self, tier, seed):
         rng = random.Random(seed * 2750159 + 1)
-        reps = 5 if tier == "quick" else 40
+        reps = 8 if tier == "quick" else 60
         gs = []
         k = 0
         for xlen, exts in CONFIGS:
-            cfg_reps = reps if exts == "MA" else max(1, reps // 4)
+            cfg_reps = reps if exts == "MA" else max(2, reps // 4)
             for t in T:
                 if not valid_in(t, xlen, exts):
                     continue
@@ -283,10 +292,11 @@ class C25(RVCheck):
     def record(self, groups):
         evg = RVCheck.record(self, groups)
         out = []
-        rng = random.Random(99)
+        import zlib
         for g, evs in zip(groups, evg):
             if len(g) == 2 and g[0].get("pair"):
                 a, b = evs
+                rng = random.Random(zlib.crc32(json.dumps([a["bytes"], b["bytes"], a["addr"]]).encode()))
                 st, _ = make_states(rng, dict(a, keys=sorted(set(a["keys"]) | set(b["keys"]))), 3)
                 out.append([{"case": a["case"], "op": "pair", "mode": "text", "a": a, "b": b, "states": st, "panic": ""}])
             else:
